@@ -2,6 +2,7 @@ import HcipyVerif.Model.PhaseOptics
 import HcipyVerif.Lemmas.Jones
 import HcipyVerif.Lemmas.PassiveOptics
 import HcipyVerif.Lemmas.PhaseOptics
+import HcipyVerif.Lemmas.NearFieldGRat
 import HcipyVerif.Gen.PhaseCoef
 import HcipyVerif.Gen.Stokes
 import Mathlib.Analysis.Complex.Exponential
@@ -39,23 +40,21 @@ open HcipyVerif.Passive HcipyVerif.Jones
 
 /-! ## Phase-only elements -/
 
-/-- Jones-vector wavefront: both components get the same multiplier. -/
-theorem phase_only_pixel_power_vector (c : UChar) (E1 E2 : ℂ) (φ w : ℝ) :
-    (Complex.normSq (E1 * c.χ φ) + Complex.normSq (E2 * c.χ φ)) * w
-      = (Complex.normSq E1 + Complex.normSq E2) * w := by
-  rw [Complex.normSq_mul, Complex.normSq_mul, c.normSq_eq_one, mul_one, mul_one]
-
-/-- Jones-matrix (partially polarised) wavefront: the intensity hcipy reports (the *generated*
-`stokesI` polynomial, see C08) is invariant when all four entries are multiplied by a unimodular
-number `u = ur + i ui`. -/
-theorem phase_only_pixel_power_tensor (xr xi yr yi zr zi wr wi a b cc d ur ui w : ℝ) (hu : ur ^ 2 + ui ^ 2 = 1) :
-    Gen.Stokes.stokesI (xr * ur - xi * ui) (xr * ui + xi * ur) (yr * ur - yi * ui) (yr * ui + yi * ur)
-        (zr * ur - zi * ui) (zr * ui + zi * ur) (wr * ur - wi * ui) (wr * ui + wi * ur) a b cc d * w
-      = Gen.Stokes.stokesI xr xi yr yi zr zi wr wi a b cc d * w := by
+/-- Jones-matrix (partially polarised) wavefront: the intensity hcipy reports (the *generated* `stokesI` polynomial of the running
+code, see C08) evaluated on the entries the executable `maskJ` produces (driver op `maskpol`: every entry times the scalar
+multiplier `u`) is the intensity before the element when `|u| = 1`. -/
+theorem phase_only_pixel_power_tensor (u : Cx ℝ) (e : J2 ℝ) (a b cc d w : ℝ) (hu : u.normSq = 1) :
+    Gen.Stokes.stokesI (maskJ u e).a11.re (maskJ u e).a11.im (maskJ u e).a12.re (maskJ u e).a12.im
+        (maskJ u e).a21.re (maskJ u e).a21.im (maskJ u e).a22.re (maskJ u e).a22.im a b cc d * w
+      = Gen.Stokes.stokesI e.a11.re e.a11.im e.a12.re e.a12.im e.a21.re e.a21.im e.a22.re e.a22.im a b cc d * w := by
+  obtain ⟨⟨xr, xi⟩, ⟨yr, yi⟩, ⟨zr, zi⟩, ⟨wr, wi⟩⟩ := e
+  obtain ⟨ur, ui⟩ := u
+  simp only [Cx.normSq] at hu
   have h : Gen.Stokes.stokesI (xr * ur - xi * ui) (xr * ui + xi * ur) (yr * ur - yi * ui) (yr * ui + yi * ur)
         (zr * ur - zi * ui) (zr * ui + zi * ur) (wr * ur - wi * ui) (wr * ui + wi * ur) a b cc d
-      = (ur ^ 2 + ui ^ 2) * Gen.Stokes.stokesI xr xi yr yi zr zi wr wi a b cc d := by
+      = (ur * ur + ui * ui) * Gen.Stokes.stokesI xr xi yr yi zr zi wr wi a b cc d := by
     simp only [Gen.Stokes.stokesI]; ring
+  simp only [maskJ, J2.scale, Cx.mul_re, Cx.mul_im]
   rw [h, hu, one_mul]
 
 /-! ### The identified coefficients of the real elements -/
@@ -80,19 +79,6 @@ def genCoef (f : Family) (d : Dir) (n : Rat) : Rat :=
   | .unimodularApodizer, .fwd => unimodularApodizerFwd | .unimodularApodizer, .bwd => unimodularApodizerBwd
   | .multiLayerAtmosphere, .fwd => multiLayerAtmosphereFwd | .multiLayerAtmosphere, .bwd => multiLayerAtmosphereBwd
 
-/-- In every family the identified backward exponent is minus the forward one
-(a factor-of-two or sign slip in one direction breaks this). -/
-theorem gen_backward_coef_eq_neg_forward (f : Family) (n : ℚ) :
-    genCoef f .bwd n = -genCoef f .fwd n := by
-  cases f <;>
-  simp only [genCoef, phaseApodizerFwd, phaseApodizerBwd, surfaceApodizerFwdN0, surfaceApodizerFwdN1,
-    surfaceApodizerBwdN0, surfaceApodizerBwdN1, deformableMirrorFwd, deformableMirrorBwd, segmentedMirrorFwd,
-    segmentedMirrorBwd, tipTiltMirrorFwd, tipTiltMirrorBwd, microLensArrayFwd, microLensArrayBwd,
-    thinLensFwdN0, thinLensFwdN1, thinLensBwdN0, thinLensBwdN1, tiltElementFwdN0, tiltElementFwdN1, tiltElementBwdN0,
-    tiltElementBwdN1, thinPrismFwdN0, thinPrismFwdN1, thinPrismBwdN0, thinPrismBwdN1, prismFwdN0, prismFwdN1, prismBwdN0, prismBwdN1,
-    phaseGratingFwd, phaseGratingBwd, unimodularApodizerFwd, unimodularApodizerBwd, multiLayerAtmosphereFwd, multiLayerAtmosphereBwd,
-    atmosphericLayerFwd, atmosphericLayerBwd] <;> ring
-
 /-- The identified exponents are the model's formulas: `1·φ`, `(n−1)·k·sag`, `2·k·surface`,
 `(2−1)·k·opd`, `phase_for(1)/λ`. -/
 theorem gen_coef_eq_model (f : Family) (d : Dir) (n : ℚ) : genCoef f d n = coef f d n := by
@@ -105,15 +91,26 @@ theorem gen_coef_eq_model (f : Family) (d : Dir) (n : ℚ) : genCoef f d n = coe
     phaseGratingFwd, phaseGratingBwd, unimodularApodizerFwd, unimodularApodizerBwd, multiLayerAtmosphereFwd, multiLayerAtmosphereBwd,
     atmosphericLayerFwd, atmosphericLayerBwd] <;> ring
 
-/-- For every family of the running code, `backward ∘ forward = id` and `forward ∘ backward = id` on
-every pixel, for every parameter value `p`, unit `u` (`2π/λ`, `1/λ`, `1`) and refractive index `n`. -/
-theorem family_backward_inverts_forward (c : UChar) (f : Family) (n : ℚ) (E : ℂ) (u p : ℝ) :
-    E * c.χ ((genCoef f .fwd n : ℝ) * u * p) * c.χ ((genCoef f .bwd n : ℝ) * u * p) = E ∧
-    E * c.χ ((genCoef f .bwd n : ℝ) * u * p) * c.χ ((genCoef f .fwd n : ℝ) * u * p) = E := by
-  have h : ((genCoef f .bwd n : ℚ) : ℝ) * u * p = -(((genCoef f .fwd n : ℚ) : ℝ) * u * p) := by
-    rw [gen_backward_coef_eq_neg_forward]; push_cast; ring
-  rw [h]
-  exact phase_only_inverse c E _
+/-- In every family the backward exponent identified on the running code is minus the forward one, and both are the
+coefficients the executable model returns (driver op `coef`), whose backward value is therefore minus its forward value too. -/
+theorem gen_backward_coef_eq_neg_forward (f : Family) (n : ℚ) :
+    genCoef f .bwd n = -genCoef f .fwd n ∧ coef f .bwd n = -coef f .fwd n ∧ genCoef f .bwd n = coef f .bwd n := by
+  have hc : coef f .bwd n = -coef f .fwd n := rfl
+  exact ⟨by rw [gen_coef_eq_model, gen_coef_eq_model, hc], hc, gen_coef_eq_model f .bwd n⟩
+
+/-- For every family of the running code (multipliers `χ(κ·u·pᵢ)` with the κ identified on the code), on the executable pixelwise
+product `maskFwd` (driver op `mask`, compared with every family's `forward` / `backward`): `backward ∘ forward = id` and
+`forward ∘ backward = id` on every pixel, for every parameter value `p`, unit `u` (`2π/λ`, `1/λ`, `1`) and refractive index `n`. -/
+theorem family_backward_inverts_forward (c : UChar) (f : Family) (n : ℚ) (u : ℝ) (p : ℕ → ℝ) (tf tb E : ℕ → Cx ℝ)
+    (hf : ∀ i, (tf i).toComplex = c.χ ((genCoef f .fwd n : ℝ) * u * p i))
+    (hb : ∀ i, (tb i).toComplex = c.χ ((genCoef f .bwd n : ℝ) * u * p i)) (i : ℕ) :
+    maskFwd tb (maskFwd tf E) i = E i ∧ maskFwd tf (maskFwd tb E) i = E i := by
+  have h : ((genCoef f .bwd n : ℚ) : ℝ) * u * p i = -(((genCoef f .fwd n : ℚ) : ℝ) * u * p i) := by
+    rw [(gen_backward_coef_eq_neg_forward f n).1]; push_cast; ring
+  have key := phase_only_inverse c (E i).toComplex (((genCoef f .fwd n : ℚ) : ℝ) * u * p i)
+  constructor <;> apply Cx.toComplex_injective
+  · simp only [maskFwd, Cx.toComplex_mul, hf, hb, h]; exact key.1
+  · simp only [maskFwd, Cx.toComplex_mul, hf, hb, h]; exact key.2
 
 /-- The multiplier of the running code (κ from the generated table) **is** the model's multiplier
 `χ(coef f d n · u · p)` — this is where κ matters: a wrong coefficient in the code changes `genCoef` and breaks
@@ -301,7 +298,7 @@ theorem family_model_roundtrip (c : UChar) (f : Family) (n : ℚ) (u : ℝ) (p :
     rw [Cx.toComplex_conj, hf, hb, c.conj]
     congr 1
     have : coef f .bwd n = -coef f .fwd n := by
-      rw [← gen_coef_eq_model, ← gen_coef_eq_model, gen_backward_coef_eq_neg_forward]
+      exact (gen_backward_coef_eq_neg_forward f n).2.1
     rw [this]; push_cast; ring
   refine ⟨phase_model_total_power tf E w N fun i _ => nf i, phase_model_total_power tb E w N fun i _ => nb i, ?_, hconj⟩
   intro i
@@ -426,5 +423,84 @@ theorem mask_model_polarised_total (t : ℕ → Cx ℝ) (e : ℕ → J2 ℝ) (v 
       have h := ((mask_model_polarised_passive (t i) (e i) s (v i) ha hphys).2 (ht i (Finset.mem_range.mp hi)))
       have hwi := hw i (Finset.mem_range.mp hi)
       first | exact mul_le_mul_of_nonneg_right h.1 hwi | exact mul_le_mul_of_nonneg_right h.2 hwi
+
+/-! ## Round 5 -/
+
+/-- **Phase-only families on polarised light, on the executed definitions** (`maskJ`, `maskV`: driver op `maskpol`; `powerJ`, `powerV`:
+op `powerpol`; `coef`: op `coef`).  A pixel multiplier that is a value of the character at `coef f d n · u · p` leaves the whole
+Stokes vector of a Jones-matrix pixel (any input Stokes vector) and of a Jones-vector pixel unchanged; with one such multiplier per
+pixel the total power `Σ I_i w_i` is unchanged for **any** cell areas `w` (explicit, per point, of either sign). -/
+theorem family_model_polarised (c : UChar) (f : Family) (d : Dir) (n : ℚ) (u : ℝ) (p : ℕ → ℝ) (t : ℕ → Cx ℝ)
+    (ht : ∀ i, (t i).toComplex = c.χ ((coef f d n : ℝ) * u * p i)) (e : ℕ → J2 ℝ) (v : ℕ → V2 ℝ) (s : S4 ℝ) (w : ℕ → ℝ) (N : ℕ) :
+    (∀ i, jonesStokes (maskJ (t i) (e i)) s = jonesStokes (e i) s ∧ vecStokes (maskV (t i) (v i)) = vecStokes (v i)) ∧
+    powerJ (fun i => maskJ (t i) (e i)) s w N = powerJ e s w N ∧ powerV (fun i => maskV (t i) (v i)) w N = powerV v w N := by
+  have nt : ∀ i, (t i).normSq = 1 := fun i => by rw [Cx.toComplex_normSq, ht, c.normSq_eq_one]
+  have pix : ∀ i, jonesStokes (maskJ (t i) (e i)) s = jonesStokes (e i) s ∧ vecStokes (maskV (t i) (v i)) = vecStokes (v i) := by
+    intro i
+    obtain ⟨h1, h2, h3, h4, h5, h6, h7, h8⟩ := mask_model_polarised_stokes (t i) (e i) s (v i)
+    rw [nt i, one_mul] at h1 h2 h3 h4 h5 h6 h7 h8
+    constructor
+    · cases hj : jonesStokes (maskJ (t i) (e i)) s; cases hk : jonesStokes (e i) s
+      rw [hj, hk] at h1 h2 h3 h4; simp only at h1 h2 h3 h4; rw [h1, h2, h3, h4]
+    · cases hj : vecStokes (maskV (t i) (v i)); cases hk : vecStokes (v i)
+      rw [hj, hk] at h5 h6 h7 h8; simp only at h5 h6 h7 h8; rw [h5, h6, h7, h8]
+  refine ⟨pix, ?_, ?_⟩
+  · unfold powerJ; simp only [(pix _).1]
+  · unfold powerV; simp only [(pix _).2]
+
+/-- **Magnifier on grids with explicit cell areas** (`magWeights`, `magWeightsBack`: driver op `magweights`, compared with the weights
+of the grid `Magnifier.forward` / `backward` return for scalar, all-ones and per-point input weights, also when the same
+`Magnifier` object has seen a grid with the same coordinates and other weights before).  With the field divided by
+`sqrt (magDivisorSq)` and the weights of the *returned* grid, the power of every pixel, hence the total power over any number of
+pixels, is what came in, whatever the input weights; and `backward` returns the input weights. -/
+theorem magnifier_model_weights_power (m1 m2 : ℚ) (h1 : m1 ≠ 0) (h2 : m2 ≠ 0) (E : ℕ → ℂ) (w : ℕ → ℚ) (N : ℕ) :
+    (∀ i, Complex.normSq (E i / ((Real.sqrt ((magDivisorSq m1 m2 : ℚ) : ℝ) : ℝ) : ℂ)) * ((magWeights m1 m2 w i : ℚ) : ℝ)
+        = Complex.normSq (E i) * (w i : ℝ)) ∧
+    ∑ i ∈ Finset.range N, Complex.normSq (E i / ((Real.sqrt ((magDivisorSq m1 m2 : ℚ) : ℝ) : ℝ) : ℂ)) * ((magWeights m1 m2 w i : ℚ) : ℝ)
+      = ∑ i ∈ Finset.range N, Complex.normSq (E i) * (w i : ℝ) ∧
+    ∀ i, magWeightsBack m1 m2 (magWeights m1 m2 w) i = w i := by
+  have pix : ∀ i, Complex.normSq (E i / ((Real.sqrt ((magDivisorSq m1 m2 : ℚ) : ℝ) : ℝ) : ℂ)) * ((magWeights m1 m2 w i : ℚ) : ℝ)
+        = Complex.normSq (E i) * (w i : ℝ) := by
+    intro i
+    have := magnifier_model_power m1 m2 h1 h2 (E i) (w i : ℝ)
+    unfold magWeights; push_cast; exact this
+  refine ⟨pix, Finset.sum_congr rfl fun i _ => pix i, ?_⟩
+  intro i
+  have hne : magWeightFactor m1 m2 ≠ 0 := by
+    unfold magWeightFactor; rw [absRat_eq_abs]; exact abs_ne_zero.mpr (mul_ne_zero h1 h2)
+  unfold magWeightsBack magWeights
+  exact mul_div_cancel_right₀ _ hne
+
+/-- The hypotheses are satisfiable (anamorphic magnification of mixed sign). -/
+example : (3 / 2 : ℚ) ≠ 0 ∧ (-2 : ℚ) ≠ 0 := by norm_num
+
+/-- **The knife-edge coronagraph exactly, for every internal length** (`Passive.knifeRowP`, driver op `knifep`: `knifeRow` run at the
+formal phase sums, compared row by row with `KnifeEdgeLyotCoronagraph.forward` / `backward` for internal lengths that do not divide 4
+as well).  The complex number its output denotes is the complex pipeline of `knife_model_passive` with the DFT kernels of C01/C02,
+applied to the numbers the inputs denote … -/
+theorem knifep_denotes_complex_row (N M start : ℕ) (mask apod lyot x : ℕ → Cx Rat) (j : ℕ) :
+    NearField.PSum.ev (knifeRowP N M start mask apod lyot x j)
+      = cxC (lyot j) * knifeRow N M start (NearField.kF M) (NearField.kB M) ((M : ℂ)⁻¹) (fun q => cxC (mask q))
+          (fun i => cxC (x i) * cxC (apod i)) j := by
+  unfold knifeRowP cxToPSum cxC
+  rw [NearField.PSum.ev_mul, knifeRow_map NearField.PSum.ev NearField.PSum.ev_zero NearField.PSum.ev_add NearField.PSum.ev_mul,
+    NearField.ev_scale, funext (NearField.ev_pKerF M), funext (NearField.ev_pKerB M)]
+  simp only [NearField.PSum.ev_mul, NearField.ev_psumOfGRat]
+
+/-- … hence what op `knifep` computes never carries more energy than the row that came in: any `M > 0`, any cut-out, focal mask,
+pre-apodizer and Lyot stop of modulus ≤ 1 (`backward`: the same with conjugated apodizer / stop in swapped roles). -/
+theorem knifep_passive (N M start : ℕ) (hM : 0 < M) (h : start + N ≤ M) (mask apod lyot x : ℕ → Cx Rat)
+    (hmask : ∀ q < M, ‖cxC (mask q)‖ ≤ 1) (hap : ∀ j < N, ‖cxC (apod j)‖ ≤ 1) (hly : ∀ j < N, ‖cxC (lyot j)‖ ≤ 1) :
+    ∑ j ∈ Finset.range N, ‖NearField.PSum.ev (knifeRowP N M start mask apod lyot x j)‖ ^ 2
+      ≤ ∑ j ∈ Finset.range N, ‖cxC (x j)‖ ^ 2 := by
+  simp only [knifep_denotes_complex_row]
+  exact knife_model_passive N M start hM h (fun q => cxC (mask q)) (fun j => cxC (apod j)) (fun j => cxC (lyot j))
+    (fun j => cxC (x j)) hmask hap hly
+
+/-- The hypotheses are satisfiable with an internal length that does not divide 4 (`M = 9`, the code's mask values 0, ½, 1). -/
+example : (0 : ℕ) < 9 ∧ 3 + 3 ≤ 9 ∧ ‖cxC ⟨1 / 2, 0⟩‖ ≤ 1 ∧ ‖cxC ⟨0, 0⟩‖ ≤ 1 ∧ ‖cxC ⟨1, 0⟩‖ ≤ 1 := by
+  have e : ∀ a : ℚ, cxC ⟨a, 0⟩ = ((a : ℝ) : ℂ) := fun a => by
+    unfold cxC NearField.GRat.toC; apply Complex.ext <;> simp
+  refine ⟨by norm_num, by norm_num, ?_, ?_, ?_⟩ <;> rw [e] <;> rw [Complex.norm_real] <;> norm_num
 
 end HcipyVerif.C07
